@@ -679,8 +679,19 @@ func executeDirectives(inst *Instance, filename string,
 	return nil
 }
 
-func startServers(serverList []Server, inst *Instance, restartFds map[string]restartTriple) error {
+func startServers(serverList []Server, inst *Instance, restartFds map[string]restartTriple) (err error) {
 	errChan := make(chan error, len(serverList))
+
+	// if not all servers can be made to listen, the ones that already do
+	// must not be left behind: nothing would ever serve or close them
+	var opened []io.Closer
+	defer func() {
+		if err != nil {
+			for _, c := range opened {
+				c.Close()
+			}
+		}
+	}()
 
 	// used for signaling to error logging goroutine to terminate
 	stopChan := make(chan struct{})
@@ -764,16 +775,28 @@ func startServers(serverList []Server, inst *Instance, restartFds map[string]res
 			}
 		}
 
+		if ln != nil {
+			opened = append(opened, ln)
+		}
+		if pc != nil {
+			opened = append(opened, pc)
+		}
 		if ln == nil {
 			ln, err = s.Listen()
 			if err != nil {
 				return fmt.Errorf("Listen: %v", err)
+			}
+			if ln != nil {
+				opened = append(opened, ln)
 			}
 		}
 		if pc == nil {
 			pc, err = s.ListenPacket()
 			if err != nil {
 				return fmt.Errorf("ListenPacket: %v", err)
+			}
+			if pc != nil {
+				opened = append(opened, pc)
 			}
 		}
 
